@@ -1,6 +1,6 @@
 (* Proofs/RemapProofs.v — lemmas for C15 (Model/Remap.v). *)
 From Coq Require Import List NArith Bool Lia ZifyBool ZifyN Arith.
-From Verif Require Import Base.Str Base.StrFacts Model.Remap.
+From Verif Require Import Base.Str Base.StrFacts Gen.GenRemap Model.Remap.
 Import ListNotations.
 Open Scope N_scope.
 Arguments N.add : simpl never.
@@ -551,9 +551,9 @@ Definition note_shape (pre w1 w2 v post : str) : str :=
 Theorem remap_field_only pre w1 w2 v post t :
   no_marker_start pre (marker ++ w1 ++ c_colon :: w2 ++ c_dq :: v ++ c_dq :: post) = true ->
   forallb is_json_ws w1 = true -> forallb is_json_ws w2 = true -> esc_body v = true ->
-  try_remap (note_shape pre w1 w2 v post) t = Some (note_shape pre w1 w2 t post).
+  remap_in (note_shape pre w1 w2 v post) t = Some (note_shape pre w1 w2 t post).
 Proof.
-  intros Hp H1 H2 Hv. unfold try_remap, note_shape.
+  intros Hp H1 H2 Hv. unfold remap_in, note_shape.
   rewrite (find_split_pre _ _ Hp), find_split_here.
   rewrite (span_ws_app w1 _ H1) by reflexivity.
   unfold c_colon at 1. rewrite N.eqb_refl.
@@ -564,9 +564,9 @@ Qed.
 
 Lemma try_remap_pre a md t :
   no_marker_start a md = true ->
-  try_remap (a ++ md) t = match try_remap md t with Some r => Some (a ++ r) | None => None end.
+  remap_in (a ++ md) t = match remap_in md t with Some r => Some (a ++ r) | None => None end.
 Proof.
-  intro H. unfold try_remap. rewrite (find_split_pre _ _ H).
+  intro H. unfold remap_in. rewrite (find_split_pre _ _ H).
   destruct (find_split marker md) as [[p r0]|]; [|reflexivity].
   destruct (span_ws r0) as [w1 r1]. destruct r1 as [|c r2]; [reflexivity|].
   destruct (c =? c_colon); [|reflexivity].
@@ -577,9 +577,9 @@ Proof.
 Qed.
 
 Lemma try_remap_indep md t1 t2 :
-  try_remap md t1 <> None -> try_remap md t2 <> None.
+  remap_in md t1 <> None -> remap_in md t2 <> None.
 Proof.
-  unfold try_remap.
+  unfold remap_in.
   destruct (find_split marker md) as [[p r0]|]; [|auto].
   destruct (span_ws r0) as [w1 r1]. destruct r1 as [|c r2]; [auto|].
   destruct (c =? c_colon); [|auto].
@@ -595,30 +595,134 @@ Proof.
   cbn [split_div] in H. pose proof (split_first_spec c_nl s) as S.
   destruct (split_first c_nl s) as [[l rest]|]; [|discriminate].
   destruct S as [-> _].
-  destruct (str_eqb (strip_cr l) divider).
+  destruct (str_eqb l divider).
   - inversion H; subst. rewrite <- app_assoc. reflexivity.
   - destruct (split_div f rest) as [[a' b']|] eqn:E; [|discriminate].
     inversion H; subst. rewrite (IH _ _ _ E). rewrite <- app_assoc. reflexivity.
 Qed.
 
-Theorem remap_base_only s t : wf_note s = true -> try_remap s t = Some (replace_base s t).
+Theorem remap_base_only s t : wf_note s = true -> remap_in s t = Some (replace_base s t).
 Proof.
   unfold wf_note, replace_base, split_note.
   destruct (split_div (S (length s)) s) as [[att md]|] eqn:E; [|discriminate].
   intro H. apply andb_true_iff in H as [Hn Hr].
   pose proof (split_div_sound _ _ _ _ E) as ->.
   rewrite (try_remap_pre _ _ _ Hn).
-  assert (Hs : try_remap md t <> None).
-  { apply (try_remap_indep md []). destruct (try_remap md []); [discriminate|discriminate]. }
-  destruct (try_remap md t); [reflexivity|congruence].
+  assert (Hs : remap_in md t <> None).
+  { apply (try_remap_indep md []). destruct (remap_in md []); [discriminate|discriminate]. }
+  destruct (remap_in md t); [reflexivity|congruence].
 Qed.
 
+(* ---------- the repaired shape: search below the first divider line ---------- *)
+Lemma starts_div_line l rest :
+  mem c_nl l = false -> starts_with div_line (l ++ c_nl :: rest) = str_eqb l divider.
+Proof.
+  unfold div_line, divider, c_nl.
+  destruct l as [|a [|b [|c [|d l]]]]; cbn [app starts_with str_eqb mem]; intro H; try lia.
+Qed.
+
+Lemma starts_div_no_nl s : mem c_nl s = false -> starts_with div_line s = false.
+Proof.
+  unfold div_line, c_nl.
+  destruct s as [|a [|b [|c [|d s]]]]; cbn [starts_with mem]; intro H; try reflexivity; lia.
+Qed.
+
+Lemma find_split_nl_none s : mem c_nl s = false -> find_split nl_div_line s = None.
+Proof.
+  induction s as [|c s IH]; intro H.
+  - reflexivity.
+  - cbn [mem] in H. apply orb_false_iff in H as [H1 H2].
+    rewrite find_split_eq. unfold nl_div_line at 1. cbn [starts_with].
+    replace (10 =? c) with false by (unfold c_nl in H1; lia). cbn [andb].
+    rewrite (IH H2). reflexivity.
+Qed.
+
+Lemma find_split_line l : forall rest,
+  mem c_nl l = false ->
+  find_split nl_div_line (l ++ c_nl :: rest) =
+  if starts_with div_line rest then Some (l, skipn (length div_line) rest)
+  else match find_split nl_div_line rest with
+       | Some (a, b) => Some (l ++ c_nl :: a, b)
+       | None => None
+       end.
+Proof.
+  induction l as [|c l IH]; intros rest H.
+  - cbn [app]. rewrite find_split_eq. unfold nl_div_line at 1 2. cbn [starts_with length skipn].
+    unfold c_nl at 1. rewrite N.eqb_refl. cbn [andb].
+    destruct (starts_with div_line rest); [reflexivity|].
+    fold nl_div_line. destruct (find_split nl_div_line rest) as [[a b]|]; reflexivity.
+  - cbn [mem] in H. apply orb_false_iff in H as [H1 H2].
+    cbn [app]. rewrite find_split_eq. unfold nl_div_line at 1. cbn [starts_with].
+    replace (10 =? c) with false by (unfold c_nl in H1; lia). cbn [andb].
+    rewrite (IH rest H2).
+    destruct (starts_with div_line rest); [reflexivity|].
+    destruct (find_split nl_div_line rest) as [[a b]|]; reflexivity.
+Qed.
+
+(* the position the repaired code computes is the first LF-terminated line of three dashes *)
+Lemma split_div_meta fuel : forall s, (length s < fuel)%nat -> split_div fuel s = meta_split s.
+Proof.
+  induction fuel as [|f IH]; intros s Hl; [lia|].
+  cbn [split_div]. pose proof (split_first_spec c_nl s) as S.
+  destruct (split_first c_nl s) as [[l rest]|].
+  - destruct S as [-> Hm]. unfold meta_split.
+    rewrite (starts_div_line _ _ Hm).
+    destruct (str_eqb l divider) eqn:E.
+    + apply str_eqb_eq in E. subst l. reflexivity.
+    + rewrite (find_split_line _ _ Hm).
+      rewrite IH by (rewrite app_length in Hl; simpl in Hl; lia).
+      unfold meta_split.
+      destruct (starts_with div_line rest).
+      * reflexivity.
+      * destruct (find_split nl_div_line rest) as [[a b]|]; [|reflexivity].
+        rewrite <- app_assoc. reflexivity.
+  - unfold meta_split. rewrite (starts_div_no_nl _ S), (find_split_nl_none _ S). reflexivity.
+Qed.
+
+Lemma meta_split_note s : meta_split s = split_note s.
+Proof. unfold split_note. symmetry. apply split_div_meta. lia. Qed.
+
+Theorem scoped_base_only s t :
+  has_base_field s = true -> try_remap_scoped s t = Some (replace_base s t).
+Proof.
+  unfold has_base_field, try_remap_scoped, replace_base. rewrite meta_split_note.
+  destruct (split_note s) as [[att md]|]; [|discriminate].
+  intro H.
+  assert (Hs : remap_in md t <> None).
+  { apply (try_remap_indep md []). destruct (remap_in md []); [discriminate|discriminate]. }
+  destruct (remap_in md t); [reflexivity|congruence].
+Qed.
+
+Theorem scoped_no_divider s t : split_note s = None -> try_remap_scoped s t = None.
+Proof. intro H. unfold try_remap_scoped. rewrite meta_split_note, H. reflexivity. Qed.
+
+Lemma wf_has_field s : wf_note s = true -> has_base_field s = true.
+Proof.
+  unfold wf_note, has_base_field. destruct (split_note s) as [[att md]|]; [|discriminate].
+  intro H. apply andb_true_iff in H as [_ H]. exact H.
+Qed.
+
+(* whichever of the two shapes the source has *)
 Theorem remap_note_base_only fb s t : wf_note s = true -> remap_note fb s t = replace_base s t.
-Proof. intro H. unfold remap_note. rewrite (remap_base_only _ _ H). reflexivity. Qed.
+Proof.
+  intro H. unfold remap_note, try_remap. destruct remap_below_divider.
+  - rewrite (scoped_base_only _ _ (wf_has_field _ H)). reflexivity.
+  - rewrite (remap_base_only _ _ H). reflexivity.
+Qed.
+
+(* the repaired shape needs no condition on the attestation section *)
+Theorem remap_note_scoped fb s t :
+  remap_below_divider = true -> has_base_field s = true -> remap_note fb s t = replace_base s t.
+Proof.
+  intros Hs H. unfold remap_note, try_remap. rewrite Hs.
+  rewrite (scoped_base_only _ _ H). reflexivity.
+Qed.
+
 
 (* ================================================================== witnesses *)
 Definition wit_bad_note : str := [34; 98; 97; 115; 101; 95; 99; 111; 109; 109; 105; 116; 95; 115; 104; 97; 34; 58; 34; 120; 34; 46; 116; 120; 116; 10; 32; 32; 97; 98; 99; 100; 32; 49; 10; 45; 45; 45; 10; 123; 10; 32; 32; 34; 115; 99; 104; 101; 109; 97; 95; 118; 101; 114; 115; 105; 111; 110; 34; 58; 32; 34; 97; 117; 116; 104; 111; 114; 115; 104; 105; 112; 47; 51; 46; 48; 46; 48; 34; 44; 10; 32; 32; 34; 103; 105; 116; 95; 97; 105; 95; 118; 101; 114; 115; 105; 111; 110; 34; 58; 32; 34; 49; 46; 49; 46; 56; 34; 44; 10; 32; 32; 34; 98; 97; 115; 101; 95; 99; 111; 109; 109; 105; 116; 95; 115; 104; 97; 34; 58; 32; 34; 48; 108; 100; 34; 44; 10; 32; 32; 34; 112; 114; 111; 109; 112; 116; 115; 34; 58; 32; 123; 125; 10; 125].
 Definition wit_bad_att' : str := [34; 98; 97; 115; 101; 95; 99; 111; 109; 109; 105; 116; 95; 115; 104; 97; 34; 58; 34; 110; 51; 119; 34; 46; 116; 120; 116; 10; 32; 32; 97; 98; 99; 100; 32; 49; 10; 45; 45; 45; 10].
+Definition wit_bad_fixed : str := [34; 98; 97; 115; 101; 95; 99; 111; 109; 109; 105; 116; 95; 115; 104; 97; 34; 58; 34; 120; 34; 46; 116; 120; 116; 10; 32; 32; 97; 98; 99; 100; 32; 49; 10; 45; 45; 45; 10; 123; 10; 32; 32; 34; 115; 99; 104; 101; 109; 97; 95; 118; 101; 114; 115; 105; 111; 110; 34; 58; 32; 34; 97; 117; 116; 104; 111; 114; 115; 104; 105; 112; 47; 51; 46; 48; 46; 48; 34; 44; 10; 32; 32; 34; 103; 105; 116; 95; 97; 105; 95; 118; 101; 114; 115; 105; 111; 110; 34; 58; 32; 34; 49; 46; 49; 46; 56; 34; 44; 10; 32; 32; 34; 98; 97; 115; 101; 95; 99; 111; 109; 109; 105; 116; 95; 115; 104; 97; 34; 58; 32; 34; 110; 51; 119; 34; 44; 10; 32; 32; 34; 112; 114; 111; 109; 112; 116; 115; 34; 58; 32; 123; 125; 10; 125].
 Definition wit_target : str := [110; 51; 119].
 Definition wit_good_note : str := [34; 99; 32; 100; 46; 112; 121; 34; 10; 32; 32; 97; 98; 99; 100; 32; 51; 45; 52; 10; 115; 114; 99; 47; 98; 46; 114; 115; 10; 32; 32; 97; 98; 99; 100; 32; 49; 10; 45; 45; 45; 10; 123; 10; 32; 32; 34; 115; 99; 104; 101; 109; 97; 95; 118; 101; 114; 115; 105; 111; 110; 34; 58; 32; 34; 97; 117; 116; 104; 111; 114; 115; 104; 105; 112; 47; 51; 46; 48; 46; 48; 34; 44; 10; 32; 32; 34; 103; 105; 116; 95; 97; 105; 95; 118; 101; 114; 115; 105; 111; 110; 34; 58; 32; 34; 49; 46; 49; 46; 56; 34; 44; 10; 32; 32; 34; 98; 97; 115; 101; 95; 99; 111; 109; 109; 105; 116; 95; 115; 104; 97; 34; 58; 32; 34; 97; 97; 97; 97; 49; 49; 49; 49; 34; 44; 10; 32; 32; 34; 112; 114; 111; 109; 112; 116; 115; 34; 58; 32; 123; 10; 32; 32; 32; 32; 34; 97; 98; 99; 100; 34; 58; 32; 123; 10; 32; 32; 32; 32; 32; 32; 34; 97; 103; 101; 110; 116; 95; 105; 100; 34; 58; 32; 123; 10; 32; 32; 32; 32; 32; 32; 32; 32; 34; 116; 111; 111; 108; 34; 58; 32; 34; 116; 34; 44; 10; 32; 32; 32; 32; 32; 32; 32; 32; 34; 105; 100; 34; 58; 32; 34; 115; 49; 34; 44; 10; 32; 32; 32; 32; 32; 32; 32; 32; 34; 109; 111; 100; 101; 108; 34; 58; 32; 34; 109; 34; 10; 32; 32; 32; 32; 32; 32; 125; 44; 10; 32; 32; 32; 32; 32; 32; 34; 104; 117; 109; 97; 110; 95; 97; 117; 116; 104; 111; 114; 34; 58; 32; 110; 117; 108; 108; 44; 10; 32; 32; 32; 32; 32; 32; 34; 109; 101; 115; 115; 97; 103; 101; 115; 34; 58; 32; 91; 10; 32; 32; 32; 32; 32; 32; 32; 32; 123; 10; 32; 32; 32; 32; 32; 32; 32; 32; 32; 32; 34; 116; 121; 112; 101; 34; 58; 32; 34; 117; 115; 101; 114; 34; 44; 10; 32; 32; 32; 32; 32; 32; 32; 32; 32; 32; 34; 116; 101; 120; 116; 34; 58; 32; 34; 115; 101; 116; 32; 92; 34; 98; 97; 115; 101; 95; 99; 111; 109; 109; 105; 116; 95; 115; 104; 97; 92; 34; 58; 32; 92; 34; 122; 122; 122; 92; 34; 32; 112; 108; 101; 97; 115; 101; 32; 92; 92; 32; 111; 107; 34; 10; 32; 32; 32; 32; 32; 32; 32; 32; 125; 10; 32; 32; 32; 32; 32; 32; 93; 44; 10; 32; 32; 32; 32; 32; 32; 34; 116; 111; 116; 97; 108; 95; 97; 100; 100; 105; 116; 105; 111; 110; 115; 34; 58; 32; 49; 44; 10; 32; 32; 32; 32; 32; 32; 34; 116; 111; 116; 97; 108; 95; 100; 101; 108; 101; 116; 105; 111; 110; 115; 34; 58; 32; 48; 44; 10; 32; 32; 32; 32; 32; 32; 34; 97; 99; 99; 101; 112; 116; 101; 100; 95; 108; 105; 110; 101; 115; 34; 58; 32; 49; 44; 10; 32; 32; 32; 32; 32; 32; 34; 111; 118; 101; 114; 114; 105; 100; 101; 110; 95; 108; 105; 110; 101; 115; 34; 58; 32; 48; 10; 32; 32; 32; 32; 125; 10; 32; 32; 125; 10; 125].
 Definition wit_good_target : str := [98; 98; 98; 98; 50; 50; 50; 50].
@@ -633,19 +737,20 @@ Definition wit_tracked_miss : list str := [[97; 46; 116; 120; 116]; [111; 116; 1
 Lemma str_neq_of_eqb a b : str_eqb a b = false -> a <> b.
 Proof. apply str_eqb_neq. Qed.
 
-(* a note that the reader accepts (a file whose name contains the marker text) is mis-rewritten:
-   the path line changes, the metadata keeps the old base *)
-Theorem remap_refuted :
+(* the historical shape (marker searched in the whole note): a note that the reader accepts (a file
+   whose name contains the marker text) is mis-rewritten: the path line changes, the metadata keeps
+   the old base.  This is why the search had to be confined to the metadata section. *)
+Theorem remap_unscoped_refuted :
   exists s t r,
-    (exists att md md', split_note s = Some (att, md) /\ try_remap md t = Some md') /\
-    try_remap s t = Some r /\ r <> replace_base s t /\
+    (exists att md md', split_note s = Some (att, md) /\ remap_in md t = Some md') /\
+    remap_in s t = Some r /\ r <> replace_base s t /\
     (exists att md att', split_note s = Some (att, md) /\ r = att' ++ md /\ att' <> att).
 Proof.
   exists wit_bad_note, wit_target.
-  destruct (try_remap wit_bad_note wit_target) as [r|] eqn:E; [|vm_compute in E; discriminate].
+  destruct (remap_in wit_bad_note wit_target) as [r|] eqn:E; [|vm_compute in E; discriminate].
   exists r. split.
   - destruct (split_note wit_bad_note) as [[att md]|] eqn:Es; [|vm_compute in Es; discriminate].
-    destruct (try_remap md wit_target) as [md'|] eqn:Em.
+    destruct (remap_in md wit_target) as [md'|] eqn:Em.
     + exists att, md, md'. split; [reflexivity|exact Em].
     + vm_compute in Es. inversion Es; subst. vm_compute in Em. discriminate.
   - split; [reflexivity|]. vm_compute in E. inversion E; subst r. clear E. split.
@@ -661,7 +766,7 @@ Lemma wit_good_wf : wf_note wit_good_note = true.
 Proof. vm_compute. reflexivity. Qed.
 
 Lemma wit_good_remap :
-  try_remap wit_good_note wit_good_target = Some wit_good_remapped /\
+  remap_in wit_good_note wit_good_target = Some wit_good_remapped /\
   replace_base wit_good_note wit_good_target = wit_good_remapped.
 Proof. split; vm_compute; reflexivity. Qed.
 
@@ -674,4 +779,11 @@ Lemma wit_ds_facts :
   matches (print_out (limit wit_tracked_hit wit_ds)) 3 = false /\
   matches (print_out (limit wit_tracked_miss wit_ds)) 3 = true /\
   matches (print_out (limit wit_tracked_miss wit_ds)) 4 = false.
+Proof. vm_compute. repeat split; reflexivity. Qed.
+
+(* the same note under the repaired shape: only the metadata's value changes *)
+Lemma wit_bad_scoped :
+  has_base_field wit_bad_note = true /\
+  try_remap_scoped wit_bad_note wit_target = Some wit_bad_fixed /\
+  replace_base wit_bad_note wit_target = wit_bad_fixed.
 Proof. vm_compute. repeat split; reflexivity. Qed.
